@@ -32,6 +32,8 @@ pub struct LiveRec {
     /// arrival of the latest copy
     pub since: u64,
     pub expiry: u64,
+    /// TTL of the latest copy (0 = withdrawn by a goodbye, kept for one more second)
+    pub last_ttl: u32,
 }
 
 impl Store {
@@ -61,6 +63,7 @@ impl Store {
             seen.push(id.clone());
             let mut since = d.t;
             let mut expiry = d.t;
+            let mut last_ttl = d.rec.ttl;
             let mut pending_verifies: Vec<(usize, &(u64, Name, u64, usize))> = self.verifies.iter().enumerate().take(max_v).filter(|(_, v)| v.0 <= t).collect();
             for (k, x) in upto.iter().enumerate() {
                 // verify requests issued before this delivery: an unanswered verify cuts the
@@ -78,6 +81,7 @@ impl Store {
                     // a copy (re)starts the lifetime from its own TTL
                     since = x.t;
                     expiry = x.t + x.rec.ttl.max(1) as u64 * 1000;
+                    last_ttl = x.rec.ttl;
                 } else if x.t >= d.t
                     && x.rec.flush
                     && x.rec.rtype == d.rec.rtype
@@ -96,7 +100,7 @@ impl Store {
                     expiry = expiry.min(v.0 + v.2);
                 }
             }
-            out.push(LiveRec { rec: d.rec.clone(), ifi: d.ifi, since, expiry });
+            out.push(LiveRec { rec: d.rec.clone(), ifi: d.ifi, since, expiry, last_ttl });
         }
         out
     }
